@@ -104,12 +104,17 @@ def majorityMatched (s : LState) (matched : List Nat) : Option Nat :=
     | some t => if t = s.term then some mi else none
     | none => none
 
-/-- the voter filter applied to `match_index` in `calculate_new_commit_index` and in `quorum_confirmed` -/
+/-- the voter filter applied to `match_index` in `quorum_confirmed` (only peers present in the map: F30-lease) -/
 def voterMatches (c : Cfg) (s : LState) : List Nat :=
   (s.matchIdx.filter (fun pm => isVoterPeer c pm.1)).map (·.2)
 
+/-- `calculate_new_commit_index` (after `fix: count every voter in the leader's commit quorum`): every voter peer of
+    `replication_targets` counts, with 0 when it has no `match_index` entry. -/
+def allVoterMatches (c : Cfg) (s : LState) : List Nat :=
+  (((List.range (c.n + 1)).filter (fun p => isVoterPeer c p)).map (matchOf s.matchIdx))
+
 def calcNewCommit (c : Cfg) (s : LState) : Option Nat :=
-  match majorityMatched s (voterMatches c s) with
+  match majorityMatched s (allVoterMatches c s) with
   | some i => if i > s.commit then some i else none
   | none => none
 
